@@ -27,6 +27,7 @@ func init() {
 				e.RegisterString("part", sc.Part)
 				e.RegisterString("lib18", c18Lib)
 				installGlobals(e)
+				installSandbox(e)
 				var o Obs
 				if err := e.RegisterString("t", src); err != nil {
 					o = Obs{Class: "error", Err: "register: " + err.Error()}
